@@ -105,7 +105,7 @@ def run(ctx):
             "adeLate": mc("MCProtoLateADE.cfg", expect_violation=True),
             "absNet": lambda: ctx.tlc_mc("BitswapNet", "BitswapNet.tla", "MCBitswapNet.cfg", timeout=1500, deadlock=False),
             "gDeep": gen("GenBitswapNetDeep.cfg"),
-            "gSim": gen("GenBitswapNetSim.cfg", simulate=400, depth=9 * 12 + 1),
+            "gSim": gen("GenBitswapNetSim.cfg", simulate=40, depth=9 * 12 + 1),
         })
     res = _par(tasks)
     # controls: the as-built model must violate what the recorded findings say it violates
@@ -279,13 +279,15 @@ def _negative(seed):
                 bad[i]["from"] = 0
                 # local arrival is only legal if the block was announced on that node while the request was open
                 return (bad, i) if not _local_ok(rs, i) else (None, None)
-        # a key nobody asked for (any more) left on a settled want-list: the last snapshot of the first run
-        ends = [i for i, r in enumerate(rs) if r["ev"] == "Reset"][1:] + [len(rs)]
-        i = ends[0] - 1
-        if rs[i]["ev"] == "Snapshot" and not rs[i]["wl"]:
-            reqd = {k for r in rs[:i] if r["ev"] == "Request" for k in r["keys"]}
-            bad[i]["wl"] = [min(reqd)] if reqd else [1]
-            return bad, i
+        # a key nobody ever asked for on a settled want-list (last snapshot of a run): no finding excuses that
+        starts = [i for i, r in enumerate(rs) if r["ev"] == "Reset"]
+        for a, b in zip(starts, starts[1:] + [len(rs)]):
+            i = b - 1
+            reqd = {k for r in rs[a:b] if r["ev"] == "Request" for k in r["keys"]}
+            free = sorted(set(range(1, rs[a]["nb"] + 1)) - reqd)
+            if rs[i]["ev"] == "Snapshot" and not rs[i]["wl"] and free:
+                bad[i]["wl"] = [free[0]]
+                return bad, i
         return None, None
     return corrupt
 
